@@ -12,15 +12,20 @@ for f in sorted(glob.glob("/tmp/wt/confirm/batch*.txt")):
             CONF[m.group(1)] = {"suite_passed": int(m.group(2)), "suite_failed": int(m.group(3)),
                                 "demo_with_patch": m.group(4).strip(), "demo_without_patch": m.group(5).strip()}
 CHK = {}
-cur = None
-if os.path.exists("/tmp/wt/confirm/checks.txt"):
-    for line in open("/tmp/wt/confirm/checks.txt"):
+for logf in ["/tmp/wt/confirm/checks_batch12.txt", "/tmp/wt/confirm/checks.txt"]:
+    cur = None
+    if not os.path.exists(logf):
+        continue
+    for line in open(logf):
         m = re.match(r"(C\d\d-\d): (.*)$", line.rstrip())
         if m:
             cur = m.group(1)
-            CHK[cur] = {"checks": {}, "what": []}
-            for p, rc, nv in re.findall(r"== (C\d\d) rc=(\d+) violations=(\d+)", m.group(2)):
-                CHK[cur]["checks"][p] = {"rc": int(rc), "violations": int(nv)}
+            CHK.setdefault(cur, {"checks": {}, "what": []})
+            found = re.findall(r"== (C\d\d) rc=(\d+) violations=(\d+)", m.group(2))
+            for p, rc, nv in found:
+                CHK[cur]["checks"][p] = {"rc": int(rc), "violations": int(nv)}   # later runs override earlier ones
+            if found:
+                CHK[cur]["what"] = []
         elif line.startswith("  what:") and cur:
             CHK[cur]["what"].append(line.strip()[6:].strip())
 
